@@ -14,7 +14,12 @@ RULE = ("cases = committed corpus (corpus/C12W: fixed vectors for the convention
         "DeserializeSeed visitor for extract_next; a serde_json Serializer for se_element_to_vector) on catalogues of 40 integer and 64 float numerals (boundaries of u64, "
         "2^53, chrono's last second, ties of round-half-even at the nanosecond, inf/nan/sign/exponent/whitespace variants) and 16 non-string JSON values; instants compared as "
         "exact integer nanoseconds, f64 values as exact fractions. Thorough additionally enumerates every inner script of length <= 4 over 9 symbols with and without a "
-        "pre-filled buffer (7 381 scripts) and every catalogue entry through every helper. A case is distinct by the SHA-1 of its op lines and non-trivial when the "
+        "pre-filled buffer (7 381 scripts) and every catalogue entry through every helper. "
+        "Input-domain family dlong (separately seeded, appended after the random cases; 30 quick / N/20 thorough): 1-3 runs of 20-50 / 20-80 consecutive "
+        "skippable frames (ping / pong / raw frame with empty, 1-byte, 125-byte and JSON-looking payloads, now and then a Pending) each followed by a message of 8-40 elements (text or "
+        "binary), an empty text / binary payload, Close(None) or a transport error; such long messages also among 1-11 events buffered during validation; an explicit initial buffer of "
+        "10-30 items with payloads up to u64::MAX; initial transformer state up to 2^40; then end, drains, poll, collect. "
+        "A case is distinct by the SHA-1 of its op lines and non-trivial when the "
         "implementation's observation blocks differ at least once")
 ASSUMPTIONS = [
     "a poll is a function call: wakers are not modelled (the harness polls with a no-op waker); the inner stream is a script of poll results followed by Ready(None) for ever (ended) or Pending for ever",
